@@ -41,6 +41,9 @@ def run_one(prop, tier, mut, seed):
         dt = time.time() - t0
         mechs = sorted({l.split('mechanism=')[1].split(' ')[0] for l in r.stdout.splitlines() if 'mechanism=' in l})
         verdict = {0: 'SURVIVED', 1: 'KILLED', 2: 'INCONCLUSIVE'}.get(r.returncode, f'rc={r.returncode}')
+        if r.returncode == 1 and 'VIOLATION property=' not in r.stdout:
+            verdict = 'CRASH'
+            mechs = [(r.stdout[-300:] + r.stderr[-900:])]
         tail = ''
         if r.returncode not in (0, 1):
             tail = (r.stdout[-600:] + r.stderr[-600:])
